@@ -13,6 +13,8 @@ def check(pid, text, note, design, technique=TECH, engine='mirsym'):
             'level_claimed': {'category': MC, 'text': text, 'design_ref': design}, 'level_note': note, 'technique': technique}
 
 CHECKS = [
+ check('C01', 'PARTIAL (second sentence only). Bounded model checking of fill_module_dependencies executed from MIR on every sequence of <=2 (quick) / <=3 (thorough) dependency descriptors over <=2 specifier texts (all static and dynamic kinds, optional @deno-types, side-effect flag, optional type attribute), every graph kind and JS/TS/declaration/Wasm media type, with the resolver as an arbitrary function: one entry per specifier text in first-occurrence order, code target = resolver answer for the first code import, is_dynamic = conjunction over code imports (static wins), attribute type from the first import carrying one, code-only graphs record no type data, recorded type targets are resolver answers. Counterexamples are replayed natively through the public parse_module with a custom ModuleAnalyzer and Resolver. The first sentence (what a BUILD contains) is NOT covered.',
+       'Trusted: interpreter + models (IndexMap entry API, Vec, vec! lowering), resolver and ImportAttributes::get as environment stubs. Outside: the async builder, template-literal dynamic imports, pragmas/JSX/ts-reference dependencies, which resolver answer becomes the type target.', 'DESIGN.md 5 C01'),
  check('C02', 'Bounded model checking of the real validation code: walk(..).validate() and valid() are executed symbolically from the MIR of /repo on EVERY graph state with <=3 (quick) / <=4 (thorough) specifiers and <=1/2 dependencies per module, for every walk-option cube; the solver decides "fails iff a failure is reachable along the selected edges" and that the reported error identifies a reachable failure. Two recorded findings (known_findings.jsonl) are excluded by structural signature and re-confirmed natively on every run.',
        'Trusted: the MIR text parser/interpreter and the container/iterator/Url/str models (listed in the evidence, validated every run against the real crate on random concrete worlds and on every solver model); the representation invariant of DESIGN.md 3; z3. Outside: more specifiers/dependencies than the bound, builder-produced graphs as such, error ordering between roots.', 'DESIGN.md 5 C02'),
  check('C06', 'Bounded model checking of the version selection function: JsrPackageVersionResolver::resolve_version, packages::resolve_version, the date filters and get_for_package executed from MIR over EVERY version world with <=4 (quick) / <=6 (thorough) totally ordered versions, arbitrary registry subset / yanked flags / creation dates / cached set / cutoff, an arbitrary matches predicate (generalises over semver requirements), an arbitrary sequence of already-selected versions and an arbitrary HashMap iteration order; the solver decides equality with the four-tier rule of the statement, the not-found payload, and independence from iteration order. One recorded boundary finding (version created exactly at the cutoff).',
@@ -32,7 +34,6 @@ CHECKS = [
 ]
 
 NA = {
- 'C01': 'quantifies over builds by the async Builder (FuturesOrdered, trait-object loaders); no engine in this family reaches it here (Kani: no async/containers at scale; MIR interpreter: the lowered coroutines are outside its validated model library). Tier-2 kernel fill_module_dependencies not built yet.',
  'C03': 'fault assignments to every load call of a build: needs the async builder loop executed symbolically; not encodable (DESIGN.md 5 C03).',
  'C04': 'interleavings of future completions and hasher seeds inside the builder: Kani has no concurrency model and the completion order lives inside futures queues (DESIGN.md 5 C04).',
  'C05': 'per-load-call checksum obligations live in the coroutine-lowered try_load and builder code; not encodable within reach (tier-2 attempt not built).',
